@@ -1,8 +1,903 @@
-(* MpSync_proofs.v — lemmas about the model in MpSync.v (property C07). *)
-From Coq Require Import ZArith QArith List Bool String Lia Permutation Sorted.
+(* MpSync_proofs.v — lemmas about the model in MpSync.v (property C07).
+
+   Contents: monad/list helpers; gathering facts; the no-op cases; stable-sort lemmas (permutation, sortedness,
+   sorting related lists alike); [rigid] (shape of every drained event), [perm_sorted]; np.argmin specification,
+   inversion/introduction of a successful calibration, [aligned]; the epoch theorem: [bump] commutes with queues,
+   group ends, argmin, the reference event, the calibration ([calibrate_bump]) and the per-event alteration
+   ([alter1_bump]), hence [epoch_blind]; a computed counterexample for the reversed (chain) branch. *)
+From Coq Require Import ZArith QArith List Bool String Lia Lqa Permutation Sorted Setoid Morphisms.
 Import ListNotations.
 From AiuModel Require Import Base MpSync.
 Local Open Scope Z_scope.
 
-Lemma noop : forall es, active (gather_all es) = false -> mp_run es = Ok (emit (all_events (gather_all es))).
-Proof. intros es H. unfold mp_run, drain. rewrite H. reflexivity. Qed.
+(* ================================================================ *)
+
+(* ---------------------------------------------------------------- monad *)
+Lemma bind_ok : forall {A B} (r : res A) (f : A -> res B) b,
+  bind r f = Ok b -> exists a, r = Ok a /\ f a = Ok b.
+Proof. intros A B [a|t] f b H; simpl in H; [eauto|discriminate]. Qed.
+
+Lemma mapM_ok : forall {A B} (f : A -> res B) l ys,
+  mapM f l = Ok ys -> Forall2 (fun x y => f x = Ok y) l ys.
+Proof.
+  induction l as [|x r IH]; simpl; intros ys H.
+  - inversion H. constructor.
+  - apply bind_ok in H. destruct H as [y [Hy H]]. apply bind_ok in H. destruct H as [ys' [Hys H]].
+    inversion H. subst. constructor; auto.
+Qed.
+
+Lemma mapM_of_Forall2 : forall {A B} (f : A -> res B) l ys,
+  Forall2 (fun x y => f x = Ok y) l ys -> mapM f l = Ok ys.
+Proof. induction 1; simpl; auto. rewrite H, IHForall2. reflexivity. Qed.
+
+Lemma Forall2_length' : forall {A B} (R : A -> B -> Prop) l1 l2, Forall2 R l1 l2 -> List.length l1 = List.length l2.
+Proof. induction 1; simpl; auto. Qed.
+
+(* ---------------------------------------------------------------- gathering *)
+Lemma gather_events : forall es s, all_events (fold_left gather es s) = all_events s ++ es.
+Proof.
+  induction es as [|e r IH]; intros s; simpl.
+  - now rewrite app_nil_r.
+  - rewrite IH. unfold gather. destruct (cg_of e); simpl; now rewrite <- app_assoc.
+Qed.
+
+Lemma all_events_gather_all : forall es, all_events (gather_all es) = es.
+Proof. intros. unfold gather_all. now rewrite gather_events. Qed.
+
+(* ---------------------------------------------------------------- noop *)
+Lemma noop : forall es, active (gather_all es) = false -> mp_run es = Ok (emit es).
+Proof. intros es H. unfold mp_run, drain. rewrite H, all_events_gather_all. reflexivity. Qed.
+
+Lemma mem_z_In : forall x l, mem_z x l = true <-> In x l.
+Proof.
+  intros. unfold mem_z. rewrite existsb_exists. split.
+  - intros [y [Hy He]]. apply Z.eqb_eq in He. now subst.
+  - intros H. exists x. split; auto. apply Z.eqb_refl.
+Qed.
+
+Lemma proc_ids_inv : forall (P : Z -> Prop) es s,
+  (forall e, In e es -> P (e_pid e)) -> Forall P (proc_ids s) -> NoDup (proc_ids s) ->
+  Forall P (proc_ids (fold_left gather es s)) /\ NoDup (proc_ids (fold_left gather es s)).
+Proof.
+  induction es as [|e r IH]; intros s HP HF HN; simpl; auto.
+  apply IH.
+  - intros; apply HP; now right.
+  - unfold gather. destruct (cg_of e); simpl; auto. unfold add_pid.
+    destruct (mem_z (e_pid e) (proc_ids s)); auto. apply Forall_app; split; auto.
+    constructor; auto. apply HP; now left.
+  - unfold gather. destruct (cg_of e); simpl; auto. unfold add_pid.
+    destruct (mem_z (e_pid e) (proc_ids s)) eqn:Hm; auto.
+    apply (Permutation_NoDup (Permutation_cons_append (proc_ids s) (e_pid e))).
+    constructor; auto. intros Hin. apply mem_z_In in Hin. congruence.
+Qed.
+
+Lemma single_rank_len : forall es p, (forall e, In e es -> e_pid e = p) ->
+  (List.length (proc_ids (gather_all es)) <= 1)%nat.
+Proof.
+  intros es p H.
+  assert (HH : Forall (fun x => x = p) (proc_ids (fold_left gather es st0)) /\ NoDup (proc_ids (fold_left gather es st0))).
+  { apply proc_ids_inv; simpl; auto; constructor. }
+  destruct HH as [HF HN].
+  unfold gather_all. destruct (proc_ids (fold_left gather es st0)) as [|a [|b l]]; simpl; try lia.
+  inversion HF as [|? ? Ha HF']; subst. inversion HF' as [|? ? Hb _]; subst.
+  inversion HN as [|? ? Hn _]; subst. exfalso; apply Hn; now left.
+Qed.
+
+Lemma noop_single_rank : forall es p, (forall e, In e es -> e_pid e = p) -> mp_run es = Ok (emit es).
+Proof.
+  intros es p H. apply noop. unfold active. pose proof (single_rank_len es p H) as L.
+  rewrite (proj2 (Nat.ltb_ge _ _)) by lia. apply andb_false_r.
+Qed.
+
+Lemma coll_groups_free : forall es s, (forall e, In e es -> cg_of e = None) ->
+  coll_groups (fold_left gather es s) = coll_groups s.
+Proof.
+  induction es as [|e r IH]; intros s H; simpl; auto.
+  rewrite IH by (intros; apply H; now right). unfold gather. rewrite (H e) by now left. reflexivity.
+Qed.
+
+Lemma noop_collective_free : forall es, (forall e, In e es -> cg_of e = None) -> mp_run es = Ok (emit es).
+Proof.
+  intros es H. apply noop. unfold active, gather_all. rewrite coll_groups_free by assumption. reflexivity.
+Qed.
+
+
+(* ---------------------------------------------------------------- stable sort *)
+Section Isort.
+  Context {A : Type} (leb : A -> A -> bool).
+
+  Lemma insert_perm : forall x l, Permutation (insert_sorted leb x l) (x :: l).
+  Proof.
+    induction l as [|y r IH]; simpl; auto.
+    destruct (leb x y); auto. rewrite IH. apply perm_swap.
+  Qed.
+
+  Lemma isort_perm : forall l, Permutation (isort leb l) l.
+  Proof.
+    induction l as [|x r IH]; simpl; auto. unfold isort in *. simpl. rewrite insert_perm. now constructor.
+  Qed.
+
+  Variable R : A -> A -> Prop.
+  Hypothesis leb_R : forall a b, leb a b = true -> R a b.
+  Hypothesis leb_total : forall a b, leb a b = false -> R b a.
+
+  Lemma insert_sorted_Sorted : forall x l, Sorted R l -> Sorted R (insert_sorted leb x l).
+  Proof.
+    induction l as [|y r IH]; simpl; intros HS.
+    - repeat constructor.
+    - destruct (leb x y) eqn:E.
+      + constructor; [assumption | constructor; now apply leb_R].
+      + inversion HS as [|? ? HS' HR]; subst. constructor; [now apply IH|].
+        destruct r as [|z r']; simpl.
+        * constructor. now apply leb_total.
+        * destruct (leb x z); constructor; [now apply leb_total | now inversion HR].
+  Qed.
+
+  Lemma isort_Sorted : forall l, Sorted R (isort leb l).
+  Proof. induction l; simpl; [constructor|]. unfold isort in *. simpl. now apply insert_sorted_Sorted. Qed.
+End Isort.
+
+(* two lists related pointwise by a relation under which the order test agrees are sorted alike *)
+Section IsortRel.
+  Context {A B : Type} (la : A -> A -> bool) (lb : B -> B -> bool) (R : A -> B -> Prop).
+  Hypothesis compat : forall a a' b b', R a b -> R a' b' -> la a a' = lb b b'.
+
+  Lemma insert_rel : forall x y l m, R x y -> Forall2 R l m ->
+    Forall2 R (insert_sorted la x l) (insert_sorted lb y m).
+  Proof.
+    intros x y l m Hxy H. induction H as [|a b l m Hab H IH]; simpl.
+    - repeat constructor; auto.
+    - rewrite (compat x a y b Hxy Hab). destruct (lb y b); constructor; auto.
+  Qed.
+
+  Lemma isort_rel : forall l m, Forall2 R l m -> Forall2 R (isort la l) (isort lb m).
+  Proof. induction 1; simpl; [constructor|]. unfold isort in *. simpl. now apply insert_rel. Qed.
+End IsortRel.
+
+Lemma Forall2_rev : forall {A B} (R : A -> B -> Prop) l m, Forall2 R l m -> Forall2 R (rev l) (rev m).
+Proof.
+  induction 1; simpl; [constructor|]. apply Forall2_app; auto.
+Qed.
+
+Lemma ts_leb_le : forall a b, ts_leb a b = true -> (e_ts a <= e_ts b)%Q.
+Proof. intros a b H. now apply Qle_bool_iff. Qed.
+
+Lemma ts_leb_total : forall a b, ts_leb a b = false -> (e_ts b <= e_ts a)%Q.
+Proof.
+  intros a b H. unfold ts_leb in H. destruct (Qlt_le_dec (e_ts b) (e_ts a)) as [L|L].
+  - now apply Qlt_le_weak.
+  - apply Qle_bool_iff in L. congruence.
+Qed.
+
+Definition ts_le (a b : ev) : Prop := (e_ts a <= e_ts b)%Q.
+
+Lemma emit_sorted : forall es, StronglySorted ts_le (emit es).
+Proof.
+  intros es. apply Sorted_StronglySorted.
+  - intros a b c H1 H2. unfold ts_le in *. eapply Qle_trans; eauto.
+  - unfold emit. apply isort_Sorted; [apply ts_leb_le | apply ts_leb_total].
+Qed.
+
+Lemma emit_perm : forall es, Permutation (emit es) es.
+Proof. intros. unfold emit. rewrite isort_perm. symmetry. apply Permutation_rev. Qed.
+
+Lemma Forall2_imp : forall {A B} (R S : A -> B -> Prop) l m,
+  (forall a b, R a b -> S a b) -> Forall2 R l m -> Forall2 S l m.
+Proof. induction 2; constructor; auto. Qed.
+
+(* ---------------------------------------------------------------- rigid *)
+Lemma nth_error_map' : forall {A B} (f : A -> B) l n, nth_error (map f l) n = option_map f (nth_error l n).
+Proof. induction l; destruct n; simpl; auto. Qed.
+
+Lemma alter1_placed : forall c e e', alter1 c e = Ok e' -> placed c e e'.
+Proof.
+  intros c e e' H. unfold alter1 in H. unfold placed, has_ts5.
+  destruct (e_args e) as [a|] eqn:Ea; [|discriminate].
+  destruct (a_ts5 a) eqn:E5; [|now inversion H].
+  destruct (a_dev a) as [dev|] eqn:Ed; [|discriminate].
+  apply bind_ok in H. destruct H as [s [Hs H]].
+  rewrite !nth_error_map' in H.
+  destruct (nth_error dev (op_id (e_name e))) as [t|] eqn:En; simpl in H; [|discriminate].
+  inversion H; subst e'; clear H.
+  assert (Hsh : shift_of c (e_pid e) = s).
+  { destruct dev as [|d0 dr]; [destruct (op_id (e_name e)); discriminate|].
+    unfold shift_of. now rewrite Hs. }
+  exists dev, t. unfold dev_of, all_of, off, cg_of, has_ts5, set_times. rewrite Ea; simpl. rewrite Hsh.
+  repeat split; auto; try ring.
+  now rewrite map_map.
+Qed.
+
+Lemma rigid : forall es out, mp_run es = Ok out -> active (gather_all es) = true ->
+  exists c es', calib_of (gather_all es) = Ok c /\ Forall2 (placed c) es es' /\ out = emit es'.
+Proof.
+  intros es out H Ha. unfold mp_run, drain in H. rewrite Ha in H.
+  apply bind_ok in H. destruct H as [c [Hc H]]. apply bind_ok in H. destruct H as [es' [He H]].
+  inversion H; subst. exists c, es'. rewrite all_events_gather_all in He. repeat split; auto.
+  apply mapM_ok in He. eapply Forall2_imp; [|exact He]. apply alter1_placed.
+Qed.
+
+Lemma placed_uid : forall c e e', placed c e e' -> e_uid e' = e_uid e.
+Proof.
+  intros c e e' H. unfold placed in H. destruct (has_ts5 e).
+  - destruct H as [dev [t H]]. tauto.
+  - now subst.
+Qed.
+
+Lemma placed_counters : forall c e e' (f : Q) (cs : list Z),
+  placed c e e' -> has_ts5 e = true ->
+  dev_of e = Some (map (fun z => (inject_Z z / f)%Q) cs) -> (op_id (e_name e) < List.length cs)%nat ->
+  (e_ts e' == inject_Z (nth (op_id (e_name e)) cs 0%Z) / f + off c (e_pid e))%Q /\ e_dur e' = e_dur e.
+Proof.
+  intros c e e' f cs H H5 Hd Hl. unfold placed in H. rewrite H5 in H.
+  destruct H as [dev [t [Hd' [Ht [Hts [Hdur _]]]]]]. rewrite Hd in Hd'. inversion Hd'; subst dev.
+  rewrite nth_error_map' in Ht. rewrite (nth_error_nth' cs 0%Z Hl) in Ht. simpl in Ht. inversion Ht; subst t.
+  split; auto.
+Qed.
+
+Lemma perm_sorted : forall es out, mp_run es = Ok out ->
+  Permutation (map e_uid out) (map e_uid es) /\ StronglySorted ts_le out /\ List.length out = List.length es.
+Proof.
+  intros es out H. destruct (active (gather_all es)) eqn:Ha.
+  - destruct (rigid es out H Ha) as [c [es' [_ [HF Ho]]]]. subst out.
+    assert (Hm : map e_uid es' = map e_uid es).
+    { clear -HF. induction HF; simpl; auto. f_equal; auto. eapply placed_uid; eauto. }
+    split; [|split].
+    + rewrite <- Hm. apply Permutation_map, emit_perm.
+    + apply emit_sorted.
+    + rewrite (Permutation_length (emit_perm es')). symmetry. eapply Forall2_length'; eauto.
+  - rewrite (noop es Ha) in H. inversion H; subst. split; [|split].
+    + apply Permutation_map, emit_perm.
+    + apply emit_sorted.
+    + apply Permutation_length, emit_perm.
+Qed.
+
+(* ================================================================ *)
+
+(* ---------------------------------------------------------------- argmin *)
+Lemma Qlt_b_true : forall x y, Qlt_b x y = true -> (x < y)%Q.
+Proof.
+  intros x y H. unfold Qlt_b in H. apply negb_true_iff in H.
+  destruct (Qlt_le_dec x y) as [L|L]; auto. apply Qle_bool_iff in L. congruence.
+Qed.
+
+Lemma Qlt_b_false : forall x y, Qlt_b x y = false -> (y <= x)%Q.
+Proof. intros x y H. unfold Qlt_b in H. apply negb_false_iff in H. now apply Qle_bool_iff. Qed.
+
+Lemma argmin_from_spec : forall l best bi i j d,
+  argmin_from best bi i l = (j, d) ->
+  (d <= best)%Q /\ (forall x, In x l -> (d <= x)%Q) /\
+  ((j = bi /\ d = best) \/ (exists k, j = (i + k)%nat /\ nth_error l k = Some d)).
+Proof.
+  induction l as [|x r IH]; simpl; intros best bi i j d H.
+  - inversion H; subst. split; [apply Qle_refl|]. split; [intros ? []|]. now left.
+  - destruct (Qlt_b x best) eqn:E.
+    + apply IH in H. destruct H as [H1 [H2 H3]]. apply Qlt_b_true in E. split; [|split].
+      * eapply Qle_trans; [exact H1|]. now apply Qlt_le_weak.
+      * intros y [Hy|Hy]; [subst; auto|auto].
+      * right. destruct H3 as [[Hj Hd]|[k [Hj Hk]]].
+        -- exists 0%nat. subst. split; [lia|reflexivity].
+        -- exists (S k). split; [lia|exact Hk].
+    + apply IH in H. destruct H as [H1 [H2 H3]]. apply Qlt_b_false in E. split; [auto|split].
+      * intros y [Hy|Hy]; [subst; eapply Qle_trans; eauto|auto].
+      * destruct H3 as [[Hj Hd]|[k [Hj Hk]]]; [now left|]. right. exists (S k). split; [lia|exact Hk].
+Qed.
+
+Lemma argmin_spec : forall l j d, l <> [] -> argmin l = (j, d) ->
+  nth_error l j = Some d /\ (forall x, In x l -> (d <= x)%Q).
+Proof.
+  intros [|x r] j d Hn H; [congruence|]. simpl in H. apply argmin_from_spec in H.
+  destruct H as [H1 [H2 H3]]. split.
+  - destruct H3 as [[Hj Hd]|[k [Hj Hk]]]; subst; simpl; auto.
+  - intros y [Hy|Hy]; subst; auto.
+Qed.
+
+(* ---------------------------------------------------------------- shape of a successful calibration *)
+Definition rows_of (es : list ev) (gs : list string) (tree : bool) (np : nat) : res (list (list Q)) :=
+  if (2 <? np)%nat then mapM (fun i => ends es gs (pm tree np i) 1) (seq 1 (np - 1)) else Ok [].
+
+Lemma calibrate_inv : forall es np cgs c,
+  calibrate es np cgs = Ok c ->
+  let gs := groups_used cgs in
+  let tree := tree_of es gs in
+  exists rows0 send recv idx d r y,
+    rows_of es gs tree np = Ok rows0 /\
+    ends es gs (pm tree np 0) 4 = Ok send /\
+    ends es gs (pm tree np 1) 1 = Ok recv /\
+    argmin (map2 Qminus recv send) = (idx, d) /\
+    ref_event es (nth idx gs ""%string) (if tree then 4%nat else 1%nat) = Ok (r, y) /\
+    c = mkcal tree idx
+          (map (fun p => shift_pos tree d (if (2 <? np)%nat then rows0 else [recv]) (pos_of tree np p)) (seq 0 np))
+          (e_ts r + e_dur r - y)%Q.
+Proof.
+  intros es np cgs c H. unfold calibrate in H. fold (rows_of es (groups_used cgs) (tree_of es (groups_used cgs)) np) in H.
+  apply bind_ok in H. destruct H as [rows0 [Hr H]].
+  apply bind_ok in H. destruct H as [send [Hs H]].
+  apply bind_ok in H. destruct H as [recv [Hv H]].
+  destruct (argmin (map2 Qminus recv send)) as [idx d] eqn:Ea.
+  apply bind_ok in H. destruct H as [[r y] [Hre H]].
+  inversion H; subst c; clear H.
+  exists rows0, send, recv, idx, d, r, y. repeat split; try assumption.
+Qed.
+
+Lemma mapM_length : forall {A B} (f : A -> res B) l ys, mapM f l = Ok ys -> List.length ys = List.length l.
+Proof. intros. apply mapM_ok in H. symmetry. eapply Forall2_length'; eauto. Qed.
+
+Lemma map2_length : forall {A B C} (f : A -> B -> C) l m, List.length l = List.length m ->
+  List.length (map2 f l m) = List.length l.
+Proof. induction l; destruct m; simpl; intros; auto; try discriminate. Qed.
+
+Lemma map2_nth_error : forall {A B C} (f : A -> B -> C) l m j a b,
+  nth_error l j = Some a -> nth_error m j = Some b -> nth_error (map2 f l m) j = Some (f a b).
+Proof.
+  induction l; destruct m, j; simpl; intros; try discriminate.
+  - inversion H; inversion H0; subst; auto.
+  - eauto.
+Qed.
+
+Lemma groups_used_nonempty : forall cgs, cgs <> [] -> groups_used cgs <> [].
+Proof.
+  intros cgs H. unfold groups_used. destruct (existsb is_allreduce cgs) eqn:E; auto.
+  apply existsb_exists in E. destruct E as [g [Hg Ha]]. intros Hf.
+  assert (In g (filter is_allreduce cgs)) by (apply filter_In; auto). rewrite Hf in H0. destruct H0.
+Qed.
+
+Lemma shift_at_nat : forall sh r, (r < List.length sh)%nat -> shift_at sh (Z.of_nat r) = Ok (nth r sh 0%Q).
+Proof.
+  intros sh r H. unfold shift_at.
+  replace (0 <=? Z.of_nat r) with true by (symmetry; apply Z.leb_le; lia).
+  replace (Z.of_nat r <? Z.of_nat (List.length sh)) with true by (symmetry; apply Z.ltb_lt; lia).
+  simpl. now rewrite Nat2Z.id.
+Qed.
+
+Lemma nth_map_seq : forall (f : nat -> Q) n r, (r < n)%nat -> nth r (map f (seq 0 n)) 0%Q = f r.
+Proof.
+  intros f n r H. rewrite (nth_indep _ 0%Q (f 0%nat)) by (rewrite map_length, seq_length; lia).
+  rewrite map_nth. now rewrite seq_nth.
+Qed.
+
+Lemma Forall2_nth_rel : forall {A B} (R : A -> B -> Prop) l m, Forall2 R l m ->
+  forall i d1 d2, (i < List.length l)%nat -> R (nth i l d1) (nth i m d2).
+Proof.
+  induction 1; intros i d1 d2 Hi; simpl in *; [lia|]. destruct i; auto. apply IHForall2. lia.
+Qed.
+
+Definition last_end (es : list ev) (gs : list string) (pid : Z) (k j : nat) : Q :=
+  match ends es gs pid k with Ok l => nth j l 0%Q | Err _ => 0%Q end.
+
+Lemma is_nil_false : forall {A} (l : list A), is_nil l = false -> l <> [].
+Proof. intros A [|] H; [discriminate|congruence]. Qed.
+
+Lemma aligned : forall es c,
+  active (gather_all es) = true -> calib_of (gather_all es) = Ok c -> c_tree c = true ->
+  let gs := groups_used (coll_groups (gather_all es)) in
+  let np := List.length (proc_ids (gather_all es)) in
+  (shift_of c 0 == 0)%Q /\
+  (forall j, (j < List.length gs)%nat ->
+     (last_end es gs 0 4 j + shift_of c 0 <= last_end es gs 1 1 j + shift_of c 1)%Q) /\
+  (c_idx c < List.length gs)%nat /\
+  (last_end es gs 1 1 (c_idx c) + shift_of c 1 == last_end es gs 0 4 (c_idx c) + shift_of c 0)%Q /\
+  (forall r, (2 <= r < np)%nat ->
+     (last_end es gs (Z.of_nat r) 1 0 + shift_of c (Z.of_nat r) == last_end es gs 1 1 0 + shift_of c 1)%Q).
+Proof.
+  intros es c Ha Hc Ht gs np. unfold calib_of in Hc. rewrite all_events_gather_all in Hc.
+  apply calibrate_inv in Hc. fold gs np in Hc.
+  destruct Hc as [rows0 [send [recv [idx [d [r [y [Hr [Hs [Hv [Hm [Hre Hc]]]]]]]]]]]].
+  assert (Htree : tree_of es gs = true) by (subst c; exact Ht).
+  rewrite Htree in *. unfold pm in Hs, Hv. simpl in Hs, Hv.
+  unfold active in Ha. apply andb_true_iff in Ha. destruct Ha as [Hg Hnp].
+  apply negb_true_iff, is_nil_false, groups_used_nonempty in Hg. fold gs in Hg.
+  apply Nat.ltb_lt in Hnp. fold np in Hnp.
+  pose proof (mapM_length _ _ _ Hs) as Ls. pose proof (mapM_length _ _ _ Hv) as Lv.
+  assert (Hdiff : map2 Qminus recv send <> []).
+  { intros E. apply (f_equal (@List.length Q)) in E. rewrite map2_length in E by congruence.
+    simpl in E. destruct gs; [congruence|]. simpl in *. lia. }
+  destruct (argmin_spec _ _ _ Hdiff Hm) as [Hnth Hmin].
+  assert (Lsh : List.length (c_shifts c) = np) by (subst c; simpl; now rewrite map_length, seq_length).
+  assert (S0 : shift_of c 0 = 0%Q).
+  { unfold shift_of. change 0 with (Z.of_nat 0). rewrite shift_at_nat by lia. subst c; simpl.
+    rewrite nth_map_seq by lia. reflexivity. }
+  assert (S1 : shift_of c 1 = (- d)%Q).
+  { unfold shift_of. change 1 with (Z.of_nat 1). rewrite shift_at_nat by lia. subst c; simpl.
+    rewrite nth_map_seq by lia. reflexivity. }
+  assert (Hidx : (idx < List.length gs)%nat).
+  { assert (Hlt : (idx < List.length (map2 Qminus recv send))%nat) by (apply nth_error_Some; rewrite Hnth; discriminate).
+    rewrite map2_length in Hlt by congruence. lia. }
+  unfold last_end. rewrite Hs, Hv.
+  split; [rewrite S0; reflexivity|]. split; [|split; [subst c; exact Hidx|split]].
+  - intros j Hj. rewrite S0, S1.
+    destruct (nth_error recv j) as [a|] eqn:Ea; [|apply nth_error_None in Ea; lia].
+    destruct (nth_error send j) as [b|] eqn:Eb; [|apply nth_error_None in Eb; lia].
+    rewrite (nth_error_nth _ _ _ Ea), (nth_error_nth _ _ _ Eb).
+    pose proof (map2_nth_error Qminus _ _ _ _ _ Ea Eb) as E. apply nth_error_In in E. apply Hmin in E.
+    unfold Qminus in *. lra.
+  - replace (c_idx c) with idx by (subst c; reflexivity). rewrite S0, S1.
+    destruct (nth_error recv idx) as [a|] eqn:Ea; [|apply nth_error_None in Ea; lia].
+    destruct (nth_error send idx) as [b|] eqn:Eb; [|apply nth_error_None in Eb; lia].
+    rewrite (nth_error_nth _ _ _ Ea), (nth_error_nth _ _ _ Eb).
+    rewrite (map2_nth_error Qminus _ _ _ _ _ Ea Eb) in Hnth. inversion Hnth. unfold Qminus. ring.
+  - intros q Hq. rewrite S1.
+    assert (Hnp2 : (2 <? np)%nat = true) by (apply Nat.ltb_lt; lia).
+    unfold rows_of in Hr. rewrite Hnp2 in Hr. apply mapM_ok in Hr.
+    assert (Hrow : ends es gs (Z.of_nat q) 1 = Ok (nth (q - 1) rows0 [])).
+    { clear -Hr Hq. assert (Hq' : (q - 1 < np - 1)%nat) by lia.
+      pose proof (Forall2_length' _ _ _ Hr) as L. rewrite seq_length in L.
+      assert (H := Forall2_nth_rel _ _ _ Hr (q - 1)%nat 0%nat []).
+      rewrite seq_length in H. specialize (H Hq'). rewrite seq_nth in H by lia. cbv beta in H.
+      unfold pm in H. replace (1 + (q - 1))%nat with q in H by lia. exact H. }
+    assert (Hrow1 : nth 0 rows0 [] = recv).
+    { pose proof (Forall2_length' _ _ _ Hr) as L. rewrite seq_length in L.
+      assert (H := Forall2_nth_rel _ _ _ Hr 0%nat 0%nat []).
+      rewrite seq_length in H. specialize (H ltac:(lia)). rewrite seq_nth in H by lia. simpl in H.
+      unfold pm in H. simpl in H. rewrite Hv in H. now inversion H. }
+    rewrite Hrow.
+    unfold shift_of. rewrite shift_at_nat by lia. subst c; simpl. rewrite nth_map_seq by lia.
+    rewrite Hnp2. unfold pos_of. destruct q as [|[|q']]; try lia. simpl shift_pos.
+    replace (S (S q') - 1)%nat with (S q') by lia.
+    replace (hd [] rows0) with recv.
+    2:{ rewrite <- Hrow1. destruct rows0; reflexivity. }
+    assert (Hhd : forall l : list Q, nth 0 l 0%Q = hd 0%Q l) by (intros [|]; reflexivity).
+    rewrite !Hhd. ring.
+Qed.
+
+(* ================================================================ *)
+
+(* ---------------------------------------------------------------- Q helpers *)
+Lemma Qle_bool_shift : forall a b a' b' k, (a' == a + k)%Q -> (b' == b + k)%Q -> Qle_bool a' b' = Qle_bool a b.
+Proof.
+  intros a b a' b' k Ha Hb. apply eq_true_iff_eq. rewrite !Qle_bool_iff. rewrite Ha, Hb. split; intros; lra.
+Qed.
+
+Lemma Qlt_b_shift : forall a b a' b' k, (a' == a + k)%Q -> (b' == b + k)%Q -> Qlt_b a' b' = Qlt_b a b.
+Proof. intros. unfold Qlt_b. f_equal. eapply Qle_bool_shift; eauto. Qed.
+
+Lemma Qmax_shift : forall x y x' k, (x' == x + k)%Q -> (Qmax x' (y + k) == Qmax x y + k)%Q.
+Proof.
+  intros x y x' k H. unfold Qmax.
+  rewrite (Qle_bool_shift x y x' (y + k)%Q k H (Qeq_refl _)).
+  destruct (Qle_bool x y); [reflexivity|exact H].
+Qed.
+
+Lemma maxl_shift : forall k l x x', (x' == x + k)%Q ->
+  (maxl x' (map (fun v => v + k) l) == maxl x l + k)%Q.
+Proof.
+  induction l as [|y r IH]; intros x x' H; simpl; auto.
+  apply IH. now apply Qmax_shift.
+Qed.
+
+Lemma qlist_eq_refl : forall l, qlist_eq l l.
+Proof. induction l; constructor; auto. reflexivity. Qed.
+
+Lemma oq_eq_refl : forall o, oq_eq o o.
+Proof. intros [l|]; simpl; auto. apply qlist_eq_refl. Qed.
+
+(* ---------------------------------------------------------------- bump keeps everything but ts_dev *)
+Section Bump.
+  Variable c : Z -> Q.
+
+  Lemma bump_cg : forall e, cg_of (bump c e) = cg_of e.
+  Proof. intros e. unfold cg_of, bump; simpl. destruct (e_ph e), (e_args e); reflexivity. Qed.
+
+  Lemma bump_ts5 : forall e, has_ts5 (bump c e) = has_ts5 e.
+  Proof. intros e. unfold has_ts5, bump; simpl. destruct (e_args e); reflexivity. Qed.
+
+  Lemma bump_same_view : forall e, same_view e (bump c e).
+  Proof.
+    intros e. unfold same_view. rewrite bump_cg, bump_ts5. simpl. repeat split; try reflexivity.
+    unfold all_of, bump; simpl. destruct (e_args e); simpl; [apply oq_eq_refl | exact I].
+  Qed.
+
+  Lemma gather_bump : forall es s1 s2,
+    proc_ids s2 = proc_ids s1 -> coll_groups s2 = coll_groups s1 ->
+    proc_ids (fold_left gather (map (bump c) es) s2) = proc_ids (fold_left gather es s1) /\
+    coll_groups (fold_left gather (map (bump c) es) s2) = coll_groups (fold_left gather es s1).
+  Proof.
+    induction es as [|e r IH]; intros s1 s2 Hp Hg; simpl; auto.
+    apply IH; unfold gather; rewrite bump_cg; destruct (cg_of e); simpl; congruence.
+  Qed.
+
+  Lemma gather_all_bump : forall es,
+    proc_ids (gather_all (map (bump c) es)) = proc_ids (gather_all es) /\
+    coll_groups (gather_all (map (bump c) es)) = coll_groups (gather_all es).
+  Proof. intros. apply gather_bump; reflexivity. Qed.
+
+  Lemma in_queue_bump : forall pid g e, in_queue pid g (bump c e) = in_queue pid g e.
+  Proof. intros. unfold in_queue. rewrite bump_cg. reflexivity. Qed.
+
+  Lemma queue_bump : forall es pid g, queue (map (bump c) es) pid g = map (bump c) (queue es pid g).
+  Proof.
+    intros. unfold queue. induction es as [|e r IH]; simpl; auto.
+    rewrite in_queue_bump. destruct (in_queue pid g e); simpl; congruence.
+  Qed.
+
+  Lemma queue_pid : forall es pid g e, In e (queue es pid g) -> e_pid e = pid.
+  Proof.
+    intros es pid g e H. unfold queue in H. apply filter_In in H. destruct H as [_ H].
+    unfold in_queue in H. destruct (cg_of e); [|discriminate]. apply andb_true_iff in H.
+    now apply Z.eqb_eq.
+  Qed.
+
+  Lemma dev_at_bump : forall k e x, dev_at k e = Ok x -> dev_at k (bump c e) = Ok (x + c (e_pid e))%Q.
+  Proof.
+    intros k e x H. unfold dev_at, bump in *; simpl. destruct (e_args e) as [a|]; [|discriminate]. simpl.
+    destruct (a_dev a) as [l|]; [|discriminate]. rewrite nth_error_map'.
+    destruct (nth_error l k); [|discriminate]. inversion H; subst. reflexivity.
+  Qed.
+
+  Lemma mapM_dev_bump : forall k pid q l, (forall e, In e q -> e_pid e = pid) ->
+    mapM (dev_at k) q = Ok l -> mapM (dev_at k) (map (bump c) q) = Ok (map (fun v => v + c pid)%Q l).
+  Proof.
+    induction q as [|e r IH]; intros l Hp H; simpl in *.
+    - inversion H; reflexivity.
+    - apply bind_ok in H. destruct H as [x [Hx H]]. apply bind_ok in H. destruct H as [xs [Hxs H]].
+      inversion H; subst. rewrite (dev_at_bump _ _ _ Hx). simpl.
+      rewrite (IH xs) by auto. simpl. rewrite (Hp e) by auto. reflexivity.
+  Qed.
+
+  Lemma group_end_bump : forall es pid k g v, group_end es pid k g = Ok v ->
+    exists v', group_end (map (bump c) es) pid k g = Ok v' /\ (v' == v + c pid)%Q.
+  Proof.
+    intros es pid k g v H. unfold group_end in *. rewrite queue_bump.
+    pose proof (queue_pid es pid g) as Hp.
+    destruct (queue es pid g) as [|e q]; [discriminate|]. simpl.
+    apply bind_ok in H. destruct H as [x [Hx H]]. apply bind_ok in H. destruct H as [l [Hl H]].
+    inversion H; subst. rewrite (dev_at_bump _ _ _ Hx). simpl.
+    rewrite (mapM_dev_bump k pid q l) by (auto; intros; apply Hp; now right). simpl.
+    rewrite (Hp e) by now left. eexists. split; [reflexivity|]. apply maxl_shift. reflexivity.
+  Qed.
+
+  Lemma ends_bump : forall es gs pid k l, ends es gs pid k = Ok l ->
+    exists l', ends (map (bump c) es) gs pid k = Ok l' /\ Forall2 (fun v v' => v' == v + c pid)%Q l l'.
+  Proof.
+    intros es gs pid k. unfold ends. induction gs as [|g r IH]; intros l H; simpl in *.
+    - inversion H. exists []. split; auto.
+    - apply bind_ok in H. destruct H as [v [Hv H]]. apply bind_ok in H. destruct H as [vs [Hvs H]].
+      inversion H; subst. destruct (group_end_bump _ _ _ _ _ Hv) as [v' [Hv' Hr]].
+      destruct (IH _ Hvs) as [vs' [Hvs' Hrs]]. exists (v' :: vs'). rewrite Hv'. simpl. rewrite Hvs'. simpl.
+      split; auto.
+  Qed.
+
+  Lemma tree_of_bump : forall es gs, tree_of (map (bump c) es) gs = tree_of es gs.
+  Proof.
+    intros. unfold tree_of. rewrite queue_bump. induction (queue es 0 (hd ""%string gs)); simpl; auto.
+    rewrite IHl. reflexivity.
+  Qed.
+End Bump.
+
+(* ---------------------------------------------------------------- argmin under a constant shift *)
+Lemma argmin_from_shift : forall k l l', Forall2 (fun x y => y == x + k)%Q l l' ->
+  forall best best' bi i j d, (best' == best + k)%Q -> argmin_from best bi i l = (j, d) ->
+  exists d', argmin_from best' bi i l' = (j, d') /\ (d' == d + k)%Q.
+Proof.
+  induction 1 as [|x y l l' Hxy HF IH]; intros best best' bi i j d Hb H; simpl in *.
+  - inversion H; subst. eauto.
+  - rewrite (Qlt_b_shift x best y best' k Hxy Hb). destruct (Qlt_b x best); eapply IH; eauto.
+Qed.
+
+Lemma argmin_shift : forall k l l' j d, Forall2 (fun x y => y == x + k)%Q l l' -> l <> [] ->
+  argmin l = (j, d) -> exists d', argmin l' = (j, d') /\ (d' == d + k)%Q.
+Proof.
+  intros k l l' j d HF Hn H. destruct HF as [|x y l l' Hxy HF]; [congruence|]. simpl in *.
+  eapply argmin_from_shift; eauto.
+Qed.
+
+Lemma map2_minus_shift : forall k1 k0 recv recv' send send',
+  Forall2 (fun v v' => v' == v + k1)%Q recv recv' -> Forall2 (fun v v' => v' == v + k0)%Q send send' ->
+  Forall2 (fun x y => y == x + (k1 - k0))%Q (map2 Qminus recv send) (map2 Qminus recv' send').
+Proof.
+  intros k1 k0 recv recv' send send' H. revert send send'.
+  induction H as [|a a' r r' Ha H IH]; intros send send' Hs; simpl; [constructor|].
+  destruct Hs as [|b b' s s' Hb Hs]; [constructor|]. constructor; auto.
+  unfold Qminus. rewrite Ha, Hb. ring.
+Qed.
+
+(* ================================================================ *)
+
+Section Epoch.
+  Variable c : Z -> Q.
+
+  (* ---------------------------------------------------------------- the reference event *)
+  Definition bkey (k0c : Q) (p : Q * ev) : Q * ev := ((fst p + k0c)%Q, bump c (snd p)).
+
+  Lemma lastmax_bump : forall k l best bk,
+    lastmax (bump c best) (bk + k)%Q (map (bkey k) l) = bump c (lastmax best bk l).
+  Proof.
+    induction l as [|[x e] r IH]; intros best bk; simpl; auto.
+    rewrite (Qle_bool_shift bk x (bk + k)%Q (x + k)%Q k (Qeq_refl _) (Qeq_refl _)).
+    destruct (Qle_bool bk x); apply IH.
+  Qed.
+
+  Lemma lastmax_In : forall l best bk, lastmax best bk l = best \/ In (lastmax best bk l) (map snd l).
+  Proof.
+    induction l as [|[x e] r IH]; intros best bk; simpl; auto.
+    destruct (Qle_bool bk x).
+    - destruct (IH e x) as [H|H]; [left; now left | right; now right] || idtac.
+      all: destruct (IH e x) as [H|H]; [right; left; now rewrite H | right; now right].
+    - destruct (IH best bk) as [H|H]; [now left | right; now right].
+  Qed.
+
+  Definition keyed (k0 : nat) (e' : ev) : res (Q * ev) := bind (dev_at k0 e') (fun y => Ok (y, e')).
+
+  Lemma mapM_keyed_bump : forall k0 pid q l, (forall e, In e q -> e_pid e = pid) ->
+    mapM (keyed k0) q = Ok l ->
+    mapM (keyed k0) (map (bump c) q) = Ok (map (bkey (c pid)) l) /\ map snd l = q.
+  Proof.
+    induction q as [|e r IH]; intros l Hp H; simpl in *.
+    - inversion H; auto.
+    - apply bind_ok in H. destruct H as [[x e'] [Hx H]]. apply bind_ok in H. destruct H as [xs [Hxs H]].
+      inversion H; subst. unfold keyed in Hx at 1. apply bind_ok in Hx. destruct Hx as [y [Hy Hx]].
+      inversion Hx; subst. destruct (IH xs) as [E1 E2]; auto.
+      unfold keyed at 1. rewrite (dev_at_bump c _ _ _ Hy). simpl. rewrite E1. simpl.
+      rewrite (Hp e') by auto. split; [reflexivity | now rewrite E2].
+  Qed.
+
+  Lemma ref_event_bump : forall es g k0 r y, ref_event es g k0 = Ok (r, y) ->
+    ref_event (map (bump c) es) g k0 = Ok (bump c r, (y + c 0)%Q).
+  Proof.
+    intros es g k0 r y H. unfold ref_event in *. rewrite queue_bump.
+    pose proof (queue_pid es 0 g) as Hp.
+    destruct (queue es 0 g) as [|e q]; [discriminate|]. simpl.
+    apply bind_ok in H. destruct H as [x [Hx H]]. apply bind_ok in H. destruct H as [l [Hl H]].
+    apply bind_ok in H. destruct H as [y' [Hy H]]. inversion H; subst r y'. clear H.
+    fold (keyed k0) in Hl |- *.
+    destruct (mapM_keyed_bump k0 0 q l) as [E1 E2]; auto; [intros; apply Hp; now right|].
+    rewrite (dev_at_bump c _ _ _ Hx). simpl. rewrite (Hp e) by now left. rewrite E1. simpl.
+    rewrite lastmax_bump.
+    assert (Hr : e_pid (lastmax e x l) = 0).
+    { destruct (lastmax_In l e x) as [H|H]; [rewrite H; apply Hp; now left|].
+      rewrite E2 in H. apply Hp. now right. }
+    rewrite (dev_at_bump c _ _ _ Hy). simpl. rewrite Hr. reflexivity.
+  Qed.
+
+  (* ---------------------------------------------------------------- calibration *)
+  Lemma mapM_exists : forall {A B} (f : A -> res B) l, (forall x, In x l -> exists y, f x = Ok y) ->
+    exists ys, mapM f l = Ok ys.
+  Proof.
+    induction l as [|x r IH]; intros H; simpl; [eauto|].
+    destruct (H x) as [y Hy]; [now left|]. destruct IH as [ys Hys]; [intros; apply H; now right|].
+    rewrite Hy, Hys. simpl. eauto.
+  Qed.
+
+  Lemma calibrate_intro : forall es np cgs rows0 send recv idx d r y,
+    let gs := groups_used cgs in
+    let tree := tree_of es gs in
+    rows_of es gs tree np = Ok rows0 ->
+    ends es gs (pm tree np 0) 4 = Ok send ->
+    ends es gs (pm tree np 1) 1 = Ok recv ->
+    argmin (map2 Qminus recv send) = (idx, d) ->
+    ref_event es (nth idx gs ""%string) (if tree then 4%nat else 1%nat) = Ok (r, y) ->
+    calibrate es np cgs = Ok (mkcal tree idx
+          (map (fun p => shift_pos tree d (if (2 <? np)%nat then rows0 else [recv]) (pos_of tree np p)) (seq 0 np))
+          (e_ts r + e_dur r - y)%Q).
+  Proof.
+    intros es np cgs rows0 send recv idx d r y gs tree Hr Hs Hv Ha Hre.
+    unfold calibrate. fold gs. fold tree. fold (rows_of es gs tree np).
+    rewrite Hr. simpl. rewrite Hs. simpl. rewrite Hv. simpl. rewrite Ha. rewrite Hre. reflexivity.
+  Qed.
+
+  Definition calib_rel (np : nat) (c1 c2 : calib) : Prop :=
+    List.length (c_shifts c1) = np /\ List.length (c_shifts c2) = np /\
+    (forall p, (p < np)%nat -> (nth p (c_shifts c2) 0 == nth p (c_shifts c1) 0 - c (Z.of_nat p) + c 0)%Q) /\
+    (c_off c2 == c_off c1 - c 0)%Q.
+
+  Lemma hd_nth0 : forall (l : list Q), hd 0%Q l = nth 0 l 0%Q.
+  Proof. intros [|]; reflexivity. Qed.
+
+  Lemma calibrate_bump : forall es np cgs c1,
+    cgs <> [] -> (2 <= np)%nat ->
+    calibrate es np cgs = Ok c1 -> c_tree c1 = true ->
+    exists c2, calibrate (map (bump c) es) np cgs = Ok c2 /\ calib_rel np c1 c2.
+  Proof.
+    intros es np cgs c1 Hcg Hnp H Ht.
+    apply calibrate_inv in H.
+    destruct H as [rows0 [send [recv [idx [d [r [y [Hr [Hs [Hv [Hm [Hre Hc]]]]]]]]]]]].
+    assert (Htree : tree_of es (groups_used cgs) = true) by (subst c1; exact Ht).
+    set (gs := groups_used cgs) in *.
+    assert (Hgs : gs <> []) by (apply groups_used_nonempty; exact Hcg).
+    rewrite Htree in *. unfold pm in Hs, Hv. simpl in Hs, Hv.
+    set (es2 := map (bump c) es).
+    (* the pieces on the bumped stream *)
+    destruct (ends_bump c _ _ _ _ _ Hs) as [send' [Hs' Rs]].
+    destruct (ends_bump c _ _ _ _ _ Hv) as [recv' [Hv' Rv]].
+    pose proof (mapM_length _ _ _ Hs) as Ls. pose proof (mapM_length _ _ _ Hv) as Lv.
+    assert (Hdiff : map2 Qminus recv send <> []).
+    { intros E. apply (f_equal (@List.length Q)) in E. rewrite map2_length in E by congruence.
+      simpl in E. destruct gs; [congruence|]. simpl in *. lia. }
+    destruct (argmin_shift (c 1 - c 0)%Q _ _ _ _ (map2_minus_shift _ _ _ _ _ _ Rv Rs) Hdiff Hm) as [d' [Hm' Rd]].
+    pose proof (ref_event_bump _ _ _ _ _ Hre) as Hre'. fold es2 in Hre'.
+    assert (Hrows : exists rows0', rows_of es2 gs true np = Ok rows0' /\
+              ((2 <? np)%nat = true -> forall j, (j < np - 1)%nat ->
+                 (hd 0 (nth j rows0' []) == hd 0 (nth j rows0 []) + c (Z.of_nat (S j)))%Q)).
+    { unfold rows_of in *. destruct (2 <? np)%nat eqn:E2; [|exists []; split; [reflexivity|discriminate]].
+      pose proof (mapM_ok _ _ _ Hr) as F1.
+      destruct (mapM_exists (fun i => ends es2 gs (pm true np i) 1) (seq 1 (np - 1))) as [rows0' Hr'].
+      { intros i Hi. apply in_seq in Hi.
+        pose proof (Forall2_nth_rel _ _ _ F1 (i - 1)%nat 0%nat []) as H. rewrite seq_length in H.
+        specialize (H ltac:(lia)). rewrite seq_nth in H by lia. cbv beta in H.
+        replace (1 + (i - 1))%nat with i in H by lia.
+        destruct (ends_bump c _ _ _ _ _ H) as [l' [Hl' _]]. eauto. }
+      exists rows0'. split; [exact Hr'|]. intros _ j Hj.
+      pose proof (mapM_ok _ _ _ Hr') as F2.
+      pose proof (Forall2_nth_rel _ _ _ F1 j 0%nat []) as H1. rewrite seq_length in H1. specialize (H1 Hj).
+      pose proof (Forall2_nth_rel _ _ _ F2 j 0%nat []) as H2. rewrite seq_length in H2. specialize (H2 Hj).
+      rewrite seq_nth in H1, H2 by lia. cbv beta in H1, H2. unfold pm in H1, H2.
+      destruct (ends_bump c _ _ _ _ _ H1) as [l' [Hl' Rl]]. fold es2 in Hl'. rewrite H2 in Hl'. inversion Hl'; subst l'.
+      pose proof (mapM_length _ _ _ H1) as L1.
+      replace (1 + j)%nat with (S j) in * by lia.
+      rewrite !hd_nth0. apply (Forall2_nth_rel _ _ _ Rl 0%nat 0%Q 0%Q).
+      rewrite L1. destruct gs; [congruence|simpl; lia]. }
+    destruct Hrows as [rows0' [Hr' Rrows]].
+    pose proof (tree_of_bump c es gs) as Tb. fold es2 in Tb. rewrite Htree in Tb.
+    eexists. split.
+    - pose proof (calibrate_intro es2 np cgs rows0' send' recv' idx d' (bump c r) (y + c 0)%Q) as CI.
+      cbv zeta in CI. fold gs in CI. rewrite Tb in CI. unfold pm in CI. apply CI; auto.
+    - subst c1. unfold calib_rel. simpl. rewrite !map_length, !seq_length. repeat split; auto.
+      + intros p Hp. rewrite !nth_map_seq by lia. unfold pos_of.
+        destruct p as [|[|p']].
+        * simpl. ring.
+        * simpl. rewrite Rd. simpl. ring.
+        * assert (E2 : (2 <? np)%nat = true) by (apply Nat.ltb_lt; lia). rewrite E2.
+          cbn [shift_pos]. rewrite !hd_nth0 with (l := (hd [] _)).
+          assert (Hh : forall (rows : list (list Q)), nth 0 (hd [] rows) 0%Q = hd 0%Q (nth 0 rows [])).
+          { intros [|a ?]; simpl; [reflexivity|apply eq_sym, hd_nth0]. }
+          rewrite !Hh.
+          rewrite (Rrows E2 (S p')) by lia. rewrite (Rrows E2 0%nat) by lia. rewrite Rd.
+          replace (Z.of_nat 1) with 1 by reflexivity. ring.
+      + ring.
+  Qed.
+End Epoch.
+
+(* ================================================================ *)
+
+Section Epoch2.
+  Variable c : Z -> Q.
+
+  Lemma shift_at_nonneg : forall sh pid s, 0 <= pid -> shift_at sh pid = Ok s ->
+    (Z.to_nat pid < List.length sh)%nat /\ s = nth (Z.to_nat pid) sh 0%Q.
+  Proof.
+    intros sh pid s Hp H. unfold shift_at in H.
+    destruct ((0 <=? pid) && (pid <? Z.of_nat (List.length sh))) eqn:E.
+    - apply andb_true_iff in E. destruct E as [_ E]. apply Z.ltb_lt in E. inversion H. split; [lia|reflexivity].
+    - destruct ((- Z.of_nat (List.length sh) <=? pid) && (pid <? 0)) eqn:E'; [|discriminate].
+      apply andb_true_iff in E'. destruct E' as [_ E']. apply Z.ltb_lt in E'. lia.
+  Qed.
+
+  Lemma match_map_cons : forall (f : Q -> Q) d0 dr (X : res Q),
+    match map f (d0 :: dr) with [] => Ok 0%Q | _ :: _ => X end = X.
+  Proof. reflexivity. Qed.
+
+  Lemma alter1_not5 : forall c0 e, has_ts5 e = false -> e_args e <> None -> alter1 c0 e = Ok e.
+  Proof.
+    intros c0 e H5 Ha. unfold alter1, has_ts5 in *. destruct (e_args e) as [a|]; [|congruence]. now rewrite H5.
+  Qed.
+
+  Lemma alter1_bump : forall np c1 c2 e e1,
+    calib_rel c np c1 c2 -> (has_ts5 e = true -> 0 <= e_pid e) ->
+    alter1 c1 e = Ok e1 -> exists e2, alter1 c2 (bump c e) = Ok e2 /\ same_view e1 e2.
+  Proof.
+    intros np c1 c2 e e1 [L1 [L2 [Rs Ro]]] Hpid H.
+    destruct (has_ts5 e) eqn:H5.
+    2:{ assert (Ha : e_args e <> None) by (unfold alter1 in H; destruct (e_args e); congruence).
+        rewrite (alter1_not5 c1 e H5 Ha) in H. inversion H; subst e1.
+        exists (bump c e). split; [|apply bump_same_view]. apply alter1_not5; [now rewrite bump_ts5|].
+        unfold bump; simpl. destruct (e_args e); congruence. }
+    unfold alter1 in *. unfold has_ts5 in H5. simpl.
+    destruct (e_args e) as [a|] eqn:Ea; [|discriminate]. simpl.
+    rewrite H5 in *.
+    destruct (a_dev a) as [dev|] eqn:Ed; [|discriminate].
+    apply bind_ok in H. destruct H as [s1 [Hs1 H]]. rewrite !nth_error_map' in H.
+    destruct (nth_error dev (op_id (e_name e))) as [t|] eqn:En; [|discriminate]. simpl in H.
+    inversion H; subst e1; clear H.
+    destruct dev as [|d0 dr]; [destruct (op_id (e_name e)); discriminate|].
+    specialize (Hpid eq_refl).
+    destruct (shift_at_nonneg _ _ _ Hpid Hs1) as [Hlt Hs1'].
+    assert (Hs2 : shift_at (c_shifts c2) (e_pid e) = Ok (nth (Z.to_nat (e_pid e)) (c_shifts c2) 0%Q)).
+    { rewrite <- (Z2Nat.id (e_pid e)) at 1 by exact Hpid. apply shift_at_nat. lia. }
+    set (s2 := nth (Z.to_nat (e_pid e)) (c_shifts c2) 0%Q) in *.
+    assert (Rs2 : (s2 == s1 - c (e_pid e) + c 0)%Q).
+    { unfold s2. rewrite Hs1'. rewrite (Rs (Z.to_nat (e_pid e))) by lia. rewrite Z2Nat.id by exact Hpid. reflexivity. }
+    rewrite match_map_cons, Hs2. unfold bind. rewrite !nth_error_map', En. cbn [option_map].
+    eexists. split; [reflexivity|].
+    unfold same_view, set_times, cg_of, has_ts5, all_of. simpl. rewrite Ea. simpl.
+    repeat split; try reflexivity.
+    - rewrite Rs2, Ro. ring.
+    - rewrite !map_map. simpl.
+      constructor; [rewrite Rs2, Ro; ring|].
+      clear -Rs2 Ro. induction dr; simpl; constructor; auto. rewrite Rs2, Ro. ring.
+  Qed.
+
+  Lemma mapM_alter_bump : forall np c1 c2 es es1,
+    calib_rel c np c1 c2 -> (forall e, In e es -> has_ts5 e = true -> 0 <= e_pid e) ->
+    mapM (alter1 c1) es = Ok es1 ->
+    exists es2, mapM (alter1 c2) (map (bump c) es) = Ok es2 /\ Forall2 same_view es1 es2.
+  Proof.
+    intros np c1 c2 es. induction es as [|e r IH]; intros es1 HR Hp H; simpl in *.
+    - inversion H. exists []. auto.
+    - apply bind_ok in H. destruct H as [e1 [He1 H]]. apply bind_ok in H. destruct H as [r1 [Hr1 H]].
+      inversion H; subst.
+      destruct (alter1_bump np c1 c2 e e1 HR (Hp e (or_introl eq_refl)) He1) as [e2 [He2 V]].
+      destruct (IH r1 HR (fun x Hx => Hp x (or_intror Hx)) Hr1) as [r2 [Hr2 Vs]].
+      exists (e2 :: r2). rewrite He2. simpl. rewrite Hr2. simpl. auto.
+  Qed.
+
+  Lemma emit_same_view : forall l m, Forall2 same_view l m -> Forall2 same_view (emit l) (emit m).
+  Proof.
+    intros l m H. unfold emit. apply isort_rel.
+    - intros a a' b b' V V'. unfold ts_leb. unfold same_view in V, V'.
+      destruct V as [_ [_ [_ [_ [V _]]]]]. destruct V' as [_ [_ [_ [_ [V' _]]]]]. now rewrite V, V'.
+    - now apply Forall2_rev.
+  Qed.
+
+  Lemma active_bump : forall es, active (gather_all (map (bump c) es)) = active (gather_all es).
+  Proof. intros. unfold active. destruct (gather_all_bump c es) as [H1 H2]. now rewrite H1, H2. Qed.
+
+  Theorem epoch_blind : forall es out,
+    mp_run es = Ok out -> tree_es es = true ->
+    (forall e, In e es -> has_ts5 e = true -> 0 <= e_pid e) ->
+    exists out2, mp_run (map (bump c) es) = Ok out2 /\ Forall2 same_view out out2.
+  Proof.
+    intros es out H Ht Hp. unfold mp_run, drain in *. rewrite active_bump.
+    destruct (active (gather_all es)) eqn:Ha.
+    - apply bind_ok in H. destruct H as [c1 [Hc H]]. apply bind_ok in H. destruct H as [es1 [He H]].
+      inversion H; subst out; clear H.
+      unfold calib_of in *. rewrite !all_events_gather_all in *.
+      destruct (gather_all_bump c es) as [G1 G2]. rewrite G1, G2.
+      unfold active in Ha. apply andb_true_iff in Ha. destruct Ha as [Hg Hnp].
+      apply negb_true_iff, is_nil_false in Hg. apply Nat.ltb_lt in Hnp.
+      assert (Htree : c_tree c1 = true).
+      { pose proof (calibrate_inv _ _ _ _ Hc) as I.
+        destruct I as [? [? [? [? [? [? [? [_ [_ [_ [_ [_ I]]]]]]]]]]]]. subst c1. exact Ht. }
+      assert (Hnp2 : (2 <= List.length (proc_ids (gather_all es)))%nat) by lia.
+      destruct (calibrate_bump c _ _ _ _ Hg Hnp2 Hc Htree) as [c2 [Hc2 HR]].
+      rewrite Hc2. simpl.
+      destruct (mapM_alter_bump _ _ _ _ _ HR Hp He) as [es2 [He2 V]].
+      rewrite He2. simpl. eexists. split; [reflexivity|]. now apply emit_same_view.
+    - inversion H; subst out. rewrite !all_events_gather_all. eexists. split; [reflexivity|].
+      apply emit_same_view. clear. induction es; simpl; constructor; auto. apply bump_same_view.
+  Qed.
+End Epoch2.
+
+(* ================================================================ the reversed (chain) branch depends on epochs *)
+Fixpoint ts_eqb_list (l m : list ev) : bool :=
+  match l, m with
+  | [], [] => true
+  | a :: l', b :: m' => Qeq_bool (e_ts a) (e_ts b) && ts_eqb_list l' m'
+  | _, _ => false
+  end.
+
+Lemma same_view_ts_eqb : forall l m, Forall2 same_view l m -> ts_eqb_list l m = true.
+Proof.
+  induction 1 as [|a b l m V H IH]; simpl; auto.
+  destruct V as [_ [_ [_ [_ [V _]]]]]. apply Qeq_bool_iff in V. now rewrite V, IH.
+Qed.
+
+Definition wit_ev (uid pid : Z) (name : string) (t : Q) : ev :=
+  mkev uid true pid name t 1%Q
+       (Some (mkargs (Some "AllReduce_all_reduce_4"%string) true
+                     (Some [t; (t + 1)%Q; (t + 2)%Q; (t + 3)%Q; (t + 4)%Q]) None)).
+
+(* three ranks; rank 0's names do not carry the group name -> P_map reversed *)
+Definition wit_chain : list ev :=
+  [wit_ev 1 0 "SenRdmaSend_1 DmaO" 10%Q; wit_ev 2 1 "SenRdmaReceive_2 DmaI" 20%Q; wit_ev 3 2 "SenRdmaSend_3 DmaO" 30%Q].
+(* the same with the tag -> tree branch (used for non-vacuity in props/C07.v) *)
+Definition wit_tree : list ev :=
+  [wit_ev 1 0 "SenRdmaSend_1 [sync=AllReduce_all_reduce_4_s0] DmaO" 10%Q;
+   wit_ev 2 1 "SenRdmaReceive_2 [sync=AllReduce_all_reduce_4_s0] DmaI" 20%Q;
+   wit_ev 3 2 "SenRdmaReceive_3 [sync=AllReduce_all_reduce_4_s2] DmaI" 30%Q;
+   mkev 4 true 2 "HostFn" 5%Q 2%Q (Some (mkargs None false None None))].
+Definition wit_c (p : Z) : Q := if p =? 1 then 1%Q else 0%Q.
+
+Lemma reversed_branch_refuted :
+  exists (c : Z -> Q) (es out out2 : list ev),
+    tree_es es = false /\ (forall e, In e es -> has_ts5 e = true -> 0 <= e_pid e) /\
+    mp_run es = Ok out /\ mp_run (map (bump c) es) = Ok out2 /\ ~ Forall2 same_view out out2.
+Proof.
+  exists wit_c, wit_chain.
+  destruct (mp_run wit_chain) as [out|] eqn:E1; [|vm_compute in E1; discriminate].
+  destruct (mp_run (map (bump wit_c) wit_chain)) as [out2|] eqn:E2; [|vm_compute in E2; discriminate].
+  exists out, out2. split; [vm_compute; reflexivity|]. split.
+  { intros e He _. simpl in He. destruct He as [<-|[<-|[<-|[]]]]; simpl; lia. }
+  split; [reflexivity|]. split; [reflexivity|].
+  intros H. apply same_view_ts_eqb in H.
+  vm_compute in E1. vm_compute in E2. inversion E1; subst out. inversion E2; subst out2.
+  vm_compute in H. discriminate.
+Qed.
